@@ -356,3 +356,91 @@ def expand_use(fn_node: ast.AST, e: ast.AST, depth: int = 3) -> ast.AST:
 					return expand_use(fn_node, v, depth - 1)
 			return node
 	return T().visit(dup)
+
+
+def inlined_bodies2(func: FuncInfo, depth: int = 2, full: bool = False) -> list[tuple[ast.AST, list[tuple[ast.AST, ast.Call]]]]:
+	"""like inlined_bodies, but each body comes with the chain of call sites [(caller body, call node), ...] (outermost first) through which it is
+	reached, so that conditions known at the call sites can be added to the facts inside the helper; full=True uses fully inlined bodies (FI)"""
+	import copy
+	base = FI if full else X
+	root = base(func)
+	out: list[tuple[ast.AST, list[tuple[ast.AST, ast.Call]]]] = [(root, [])]
+	work = [(func, root, [], 0)]
+	seen = {id(func)}
+	while work:
+		f, fx, chain, d = work.pop()
+		if d >= depth:
+			continue
+		for c in nodes(fx, ast.Call):
+			g = None
+			if isinstance(c.func, ast.Attribute) and isinstance(c.func.value, ast.Name) and c.func.value.id in ('self', 'cls') and f.cls is not None:
+				g = f.cls.method(c.func.attr)
+			elif isinstance(c.func, ast.Name):
+				g = f.module.functions.get(f'{f.qualname}.<locals>.{c.func.id}')
+			if g is None or id(g) in seen:
+				continue
+			seen.add(id(g))
+			params = [a.arg for a in g.node.args.posonlyargs + g.node.args.args]
+			if params and params[0] in ('self', 'cls') and isinstance(c.func, ast.Attribute):
+				params = params[1:]
+			binding: dict[str, ast.AST] = {}
+			for p_, a in zip(params, c.args):
+				if not isinstance(a, ast.Starred):
+					binding[p_] = a
+			for kw in c.keywords:
+				if kw.arg:
+					binding[kw.arg] = kw.value
+
+			class S(ast.NodeTransformer):
+				def visit_Name(self, node: ast.Name):
+					if isinstance(node.ctx, ast.Load) and node.id in binding:
+						return copy.deepcopy(binding[node.id])
+					return node
+			gx = S().visit(copy.deepcopy(base(g)))
+			out.append((gx, chain + [(fx, c)]))
+			work.append((g, gx, chain + [(fx, c)], d + 1))
+	return out
+
+
+def atoms_via(body: ast.AST, chain: list[tuple[ast.AST, ast.Call]], node: ast.AST) -> list[tuple[ast.AST, bool]]:
+	"""conditions known at node inside an inlined helper body: its own path conditions plus those at every call site on the chain"""
+	out = list(atoms(body, node))
+	for caller, call in chain:
+		out.extend(atoms(caller, call))
+	return out
+
+
+def resolved_returns(func: FuncInfo, depth: int = 2) -> list[ast.AST]:
+	"""the valued return expressions of func on its fully inlined body; a return that is just a call of a same-class private helper (or nested
+	function) is replaced by that helper's own return expressions, with the helper's parameters substituted by the call arguments"""
+	import copy
+	out: list[ast.AST] = []
+	for n in nodes(FI(func), ast.Return):
+		v = n.value
+		if v is None:
+			continue
+		g = None
+		if depth > 0 and isinstance(v, ast.Call):
+			if isinstance(v.func, ast.Attribute) and isinstance(v.func.value, ast.Name) and v.func.value.id in ('self', 'cls') and func.cls is not None:
+				g = func.cls.method(v.func.attr)
+				if g is not None and not (g.name.startswith('_') and not g.name.endswith('__')):
+					g = None
+			elif isinstance(v.func, ast.Name):
+				g = func.module.functions.get(f'{func.qualname}.<locals>.{v.func.id}')
+		if g is None or g is func:
+			out.append(v)
+			continue
+		params = [a.arg for a in g.node.args.posonlyargs + g.node.args.args]
+		if params and params[0] in ('self', 'cls') and isinstance(v.func, ast.Attribute):
+			params = params[1:]
+		binding = {p_: a for p_, a in zip(params, v.args) if not isinstance(a, ast.Starred)}
+		binding.update({kw.arg: kw.value for kw in v.keywords if kw.arg})
+
+		class S(ast.NodeTransformer):
+			def visit_Name(self, node: ast.Name):
+				if isinstance(node.ctx, ast.Load) and node.id in binding:
+					return copy.deepcopy(binding[node.id])
+				return node
+		for e in resolved_returns(g, depth - 1):
+			out.append(S().visit(copy.deepcopy(e)))
+	return out
